@@ -352,7 +352,13 @@ func c01SqrtRatio(c *Ctx, prog *load.Program) {
 	up := ringLayer{set: models.NewSet().Merge(models.Field()).Merge(models.Helpers()).Merge(models.Scalar()), ringType: models.ElementType, sort: sym.Fp}
 	validateModel(c, "C01-6", prog, low, up, Method(models.ElementType, "Sqrt"), nil, nil, nil, "")
 	validateModel(c, "C01-6", prog, low, up, Method(models.ElementType, "Sqrt"), map[int]int{1: 0}, nil, nil, "/alias:1=0")
-	c.R.Floor("C01-6", 5)
+	// SqrtRatio with the receiver aliasing u and/or v (C01-10 for the one method whose body is not a model comparison)
+	for _, pat := range [][]int{{0, 0, 1}, {0, 1, 0}, {0, 1, 1}, {0, 0, 0}} {
+		checkAlias(c, prog, set, "C01-6", Method(models.ElementType, "SqrtRatio"), pat, func(r *Run) []absint.Val {
+			return []absint.Val{r.FieldOf(0), r.Result(1)}
+		})
+	}
+	c.R.Floor("C01-6", 9)
 }
 
 // c01Wide: SetWideBytes(src) = OS2IP(src) mod p for every length 32..64.
